@@ -288,6 +288,43 @@ func c18Text(r *mon.Run, text string, probes []string, witness []string) (accept
 	if !accepted {
 		r.Count("rejected", 1)
 		c18Rejection(r, text, q, err, cs)
+		// a rejected schema is rejected by every entry point, on the object that was checked and on fresh ones,
+		// in either order of calls
+		var accepting []string
+		if p := mon.Guard(func() {
+			fresh := regex.New("r", text)
+			if n, e := fresh.Len(); e == nil {
+				accepting = append(accepting, fmt.Sprintf("Len() on a fresh object = %d", n))
+			}
+			if e := fresh.Check(); e == nil {
+				accepting = append(accepting, "Check() after Len() on that object")
+			}
+			if n, e := rs.Len(); e == nil {
+				accepting = append(accepting, fmt.Sprintf("Len() after the failed Check() = %d", n))
+			}
+			if _, e := rs.Pattern(); e == nil {
+				accepting = append(accepting, "Pattern() after the failed Check()")
+			}
+			if _, e := rs.GetAST(); e == nil {
+				accepting = append(accepting, "GetAST() after the failed Check()")
+			}
+			if _, e := rs.Example(); e == nil {
+				accepting = append(accepting, "Example() after the failed Check()")
+			}
+			if e := rs.Check(); e == nil {
+				accepting = append(accepting, "a second Check()")
+			}
+			if _, e := regex.New("r", text).GetAST(); e == nil {
+				accepting = append(accepting, "GetAST() on a fresh object")
+			}
+			if _, e := regex.New("r", text).Example(); e == nil {
+				accepting = append(accepting, "Example() on a fresh object")
+			}
+		}); p != nil {
+			c18Violate(r, "panic", "RSchema(rejected)/"+p.Site, cs, "an entry point panicked on the rejected text %s: %s", q, p.Value)
+		} else if len(accepting) > 0 {
+			c18Violate(r, "reject-agree", text, cs, "Check() rejects %s (%s), yet these calls report no error: %s", q, c18Err(err), strings.Join(accepting, "; "))
+		}
 		return false
 	}
 	r.Count("accepted", 1)
@@ -494,8 +531,9 @@ type c18Node struct {
 const c18Chars = "abcxyz019 _-,:@#=ABZ./*+?()[]{}|^$~!%&;<>"
 
 type c18Gen struct {
-	rng   *rand.Rand
-	names int
+	rng        *rand.Rand
+	names      int
+	assertions bool // one generated pattern in five may carry \b / \B between pieces
 }
 
 func c18Lit(src string, ch byte) c18Node {
@@ -651,6 +689,10 @@ func (g *c18Gen) concat(depth int) c18Node {
 	var sb strings.Builder
 	for i := range parts {
 		parts[i] = g.quant(g.atom(depth))
+		if g.assertions && i > 0 && g.rng.IntN(6) == 0 {
+			// a word-boundary assertion between two pieces: empty-width, the samples decide whether it holds
+			sb.WriteString([]string{`\b`, `\B`}[g.rng.IntN(2)])
+		}
 		sb.WriteString(parts[i].src)
 	}
 	return c18Node{src: sb.String(), sample: func(rng *rand.Rand, sb *strings.Builder) {
@@ -712,7 +754,7 @@ func c18Mutate(rng *rand.Rand, s string) string {
 var c18Trailers = []string{" ", "\n", "g", " // note", "\t# c", "i\n"}
 
 func c18Generated(r *mon.Run, rng *rand.Rand, i int) {
-	g := &c18Gen{rng: rng}
+	g := &c18Gen{rng: rng, assertions: rng.IntN(5) == 0}
 	n := g.top()
 	text := "/" + n.src + "/"
 	if rng.IntN(4) == 0 {
@@ -751,7 +793,17 @@ func c18Generated(r *mon.Run, rng *rand.Rand, i int) {
 	} else {
 		r.Count("generator_pattern_not_compiling", 1)
 	}
-	if c18Text(r, text, probes, s[:]) {
+	witness := s[:]
+	if strings.Contains(n.src, `\b`) || strings.Contains(n.src, `\B`) {
+		// the samples ignore the assertion: draw more of them so that one that the pattern really matches is known
+		r.Count("generated_with_word_boundary_assertion", 1)
+		for k := 0; k < 12; k++ {
+			var sb strings.Builder
+			n.sample(rng, &sb)
+			witness = append(witness, sb.String())
+		}
+	}
+	if c18Text(r, text, probes, witness) {
 		r.Count("generated_accepted", 1)
 	}
 	if i < 2 {
@@ -825,14 +877,14 @@ func init() {
 			c18Pinned = true // a replay judges the recorded case without carve-outs
 			c18Text(r, string(c.Text), c.Probes, c.Witness)
 		},
-		Rule:               "every text over the 23-symbol alphabet {/ \\ a . * + ? ( ) [ ] ^ $ | { } 1 , - quote é 0x7f TAB} starting with '/' up to 5 (quick) / 7 (thorough) symbols (texts with another first byte: up to 3 symbols), a fixed list of edge texts (empty, one byte, non-UTF-8, backslash parities, counted-repetition limit), and 30k / 1M generated well-formed patterns (literals, escapes incl. \\/ and \\\\, dot, positive/negated classes with ranges and \\d\\w\\s, Perl classes, plain/non-capturing/named groups to depth 3, alternation, * + ? {n} {n,} {n,m} with n,m <= 5 and lazy forms, ^ at the start, $ at the end, optional trailing text; one in ten damaged by a byte mutation). Per text: regex.New(text).Check() vs (starts with '/', first later '/' behind an even number of backslashes, text between compiles with Go regexp); rejections must be a kit.JSchemaError whose index lies in the text, with a line number and a message that can be printed; for accepted texts Len() = closing index + 1, GetAST().Value = /pattern/, OpenAPI pattern = pattern, Example() (fresh object) matched by the pattern, and with the schema registered as @r the schema \"v\" // {type:\"@r\"} is accepted iff regexp matches v, for up to 5 probe strings (generated patterns: two matches by construction, two near-misses, one random string; enumerated texts: the library's own example plus matching and non-matching strings from a 30-string pool, 5 probes up to 6 bytes of text, 3 beyond). Enumerated texts with more than one symbol behind the closing delimiter get the example and user-type clauses on every eighth text (hash of the text) with one probe. distinct_nontrivial = distinct texts with an opening and a closing delimiter (hashed, capped at 500k per shard).",
+		Rule:               "every text over the 23-symbol alphabet {/ \\ a . * + ? ( ) [ ] ^ $ | { } 1 , - quote é 0x7f TAB} starting with '/' up to 5 (quick) / 7 (thorough) symbols (texts with another first byte: up to 3 symbols), a fixed list of edge texts (empty, one byte, non-UTF-8, backslash parities, counted-repetition limit), and 30k / 1M generated well-formed patterns (literals, escapes incl. \\/ and \\\\, dot, positive/negated classes with ranges and \\d\\w\\s, Perl classes, plain/non-capturing/named groups to depth 3, alternation, * + ? {n} {n,} {n,m} with n,m <= 5 and lazy forms, ^ at the start, $ at the end, optional trailing text; one in ten damaged by a byte mutation). Per text: regex.New(text).Check() vs (starts with '/', first later '/' behind an even number of backslashes, text between compiles with Go regexp); a rejected text must be rejected by Len, Pattern, GetAST, Example and a second Check too (same object after the failed Check, and fresh objects with Len first); rejections must be a kit.JSchemaError whose index lies in the text, with a line number and a message that can be printed; for accepted texts Len() = closing index + 1, GetAST().Value = /pattern/, OpenAPI pattern = pattern, Example() (fresh object) matched by the pattern, and with the schema registered as @r the schema \"v\" // {type:\"@r\"} is accepted iff regexp matches v, for up to 5 probe strings (generated patterns: two matches by construction, two near-misses, one random string; enumerated texts: the library's own example plus matching and non-matching strings from a 30-string pool, 5 probes up to 6 bytes of text, 3 beyond). Enumerated texts with more than one symbol behind the closing delimiter get the example and user-type clauses on every eighth text (hash of the text) with one probe. distinct_nontrivial = distinct texts with an opening and a closing delimiter (hashed, capped at 500k per shard).",
 		MinNontrivialQuick: 50000, MinNontrivialThorough: 2000000,
 		Assumptions: []string{"Go regexp (Compile, MatchString) is the reference for pattern validity and matching; the library uses the same engine, the independent part is the delimiter scan and the cross-API comparison",
 			"the closing delimiter is the first unescaped '/' behind the opening one; a text accepted only under a later unescaped '/' would be counted as not judged (never observed)",
 			"an Example() that does not match is reported only if the harness knows a string the pattern does match (generated by construction or found among all strings of <= 3 symbols over the pattern's runes); otherwise the pattern may be unsatisfiable and the case is counted as not judged",
 			"a non-matching example of a pattern that contains an empty-width assertion (^ $ \\b ...) is reported under example-match-anchor, any other under example-match",
 			"probe strings are printable ASCII without quote and backslash so that they can be written as JSON string literals verbatim; a probe rejected as a plain string schema is inconclusive",
-			"generated patterns stay inside the common subset of Go regexp and the example generator: no mid-pattern anchors, no \\b, no flags, no Unicode classes, counted repetitions <= 5, nesting <= 3 (the one-in-ten damaged texts may leave it)",
+			"generated patterns stay inside the common subset of Go regexp and the example generator: no mid-pattern ^ $, no flags, no Unicode classes, counted repetitions <= 5, nesting <= 3 (the one-in-ten damaged texts may leave it)",
 			"for the empty text any kit.JSchemaError counts as positioned (there is no byte to point at)",
 			"what follows the closing delimiter is not judged beyond the stated clauses",
 			"at most 64 distinct keys per clause and worker are handed to the monitor, the rest is counted"},
